@@ -445,7 +445,16 @@ func (e *kvElection) attemptAcquire() error {
 	if err != nil {
 		// Key exists - check if we should attempt priority takeover
 		if e.cfg.AllowPriorityTakeover && e.cfg.Priority > 0 {
-			return e.attemptPriorityTakeover(payloadBytes)
+			// The Create may have been applied although it is reported as failed
+			// (its answer was lost or came after the time-out): its token may
+			// already have appeared in the record. A takeover is an acquisition of
+			// its own and publishes a token of its own.
+			payload.Token = uuid.New().String()
+			takeoverBytes, mErr := json.Marshal(payload)
+			if mErr != nil {
+				return fmt.Errorf("failed to marshal payload: %w", mErr)
+			}
+			return e.attemptPriorityTakeover(takeoverBytes)
 		}
 
 		log := e.getLogger()
